@@ -67,9 +67,16 @@ def check(m):
     for k, c in enumerate(ps.Seasonal_Crop_List):
         _crop_ok(c, False, cmax, co2r, out, "crop%d" % k)
     _crop_ok(ps.Fallow_Crop, True, cmax, co2r, out, "fallow")
-    # ---- WOK: ET0 >= 0 in every record of the window
+    # ---- WOK2: ET0 >= 0 and rain >= 0 in every record of the window
     w = np.asarray(m._weather)
     if not np.all(w[:, 3].astype(float) >= 0): out.append("WOK.et0")
+    if not np.all(w[:, 2].astype(float) >= 0): out.append("WOK2.rain")
+    # ---- premises of the row theorems (DaySideRows): effective curve numbers in (0,100], MaxIrrSeason >= 0, RInv2 at the start
+    for f, tag in ((ps.FieldMngt, "cn_ok.field"), (ps.FallowFieldMngt, "cn_ok.fallow")):
+        cn = float(soil.cn) * (1 + (float(f.curve_number_adj_pct) if f.curve_number_adj else 0.0) / 100.0)
+        if not 0 < cn <= 100: out.append(tag)
+    if not ps.IrrMngt.MaxIrrSeason >= 0: out.append("MaxIrrSeason")
+    if not (0 <= ic.pct_lag_phase <= 100 and ic.irr_cum <= ps.IrrMngt.MaxIrrSeason): out.append("RInv2")
     nst = len(cs.time_span)
     start = np.datetime64(cs.simulation_start_date)
     pl_ = [int((np.datetime64(d) - start) / np.timedelta64(1, "D")) for d in cs.planting_dates]
